@@ -159,11 +159,11 @@ TasksPerm == /\ Range(tasks) = Present(tab)
 
 \* finished jobs are gone after every purge point
 PurgePoint == act.cmd \in {"jobs", "fg", "bg", "start", "startreal", "startfaulty"}
-NoDeadAfterPurge == PurgePoint => Present(tab) \subseteq alive
+NoDeadAfterPurge == [][PurgePoint' => Present(tab') \subseteq alive']_vars
 
 \* `jobs` lists every live job exactly once
-JobsListsLive == act.cmd = "jobs" =>
-                   /\ Range(res.out) = Present(tab) /\ Len(res.out) = Cardinality(Present(tab))
+JobsListsLive == [][act'.cmd = "jobs" =>
+                   /\ Range(res'.out) = Present(tab') /\ Len(res'.out) = Cardinality(Present(tab'))]_vars
 
 \* numbers are the lowest free ones
 LowestFree == [][ (act'.cmd \in {"start", "startreal", "startfaulty"} /\ res'.sel # 0) =>
